@@ -488,6 +488,44 @@ func runC01(c *cli.Ctx) error {
 				w.Extra["direct_failures"] = []map[string]interface{}{{"index": -1, "what": fmt.Sprintf("%d of 20 rejected AddWithExemplar calls (negative amount) changed what the counter exposes: %s", bad, what)}}
 			}
 		}
+		{
+			// A collected sample belongs to the caller: collecting again into the same dto.Metric (or collecting another
+			// metric into it) must not rewrite a sample taken earlier.
+			bad, what := 0, ""
+			var m dto.Metric
+			if gauge {
+				g := prometheus.NewGauge(prometheus.GaugeOpts{Name: "keep_g"})
+				g.Set(1)
+				g.Write(&m)
+				first := m.GetGauge()
+				g.Set(2)
+				g.Write(&m)
+				if first.GetValue() != 1 || m.GetGauge().GetValue() != 2 {
+					bad++
+					what = fmt.Sprintf("gauge sample collected before Set(2) now reads %v (want 1), the new one %v (want 2)", first.GetValue(), m.GetGauge().GetValue())
+				}
+			} else {
+				a := prometheus.NewCounter(prometheus.CounterOpts{Name: "keep_a"})
+				b := prometheus.NewCounter(prometheus.CounterOpts{Name: "keep_b"})
+				a.Add(5)
+				b.Add(100)
+				a.Write(&m)
+				first := m.GetCounter()
+				a.Inc()
+				a.Write(&m)
+				second := m.GetCounter()
+				b.Write(&m)
+				if first.GetValue() != 5 || second.GetValue() != 6 || m.GetCounter().GetValue() != 100 {
+					bad++
+					what = fmt.Sprintf("counter samples collected into one dto.Metric read %v, %v, %v (want 5, 6, 100)", first.GetValue(), second.GetValue(), m.GetCounter().GetValue())
+				}
+			}
+			if bad > 0 {
+				if _, dup := w.Extra["direct_failures"]; !dup {
+					w.Extra["direct_failures"] = []map[string]interface{}{{"index": -1, "what": "a later collection rewrote an earlier collected sample: " + what}}
+				}
+			}
+		}
 		if err := w.Flush(); err != nil {
 			return err
 		}
